@@ -1,100 +1,713 @@
-//! C05 (scratch probe stage)
+//! C05 — garbage collection is transparent and never frees a reachable value.
+//!
+//! Two streams (both in child processes, because a collector defect corrupts memory):
+//!
+//! * **graph** (correspondence + address-set oracle): seeded op sequences on one VM with a tree of
+//!   threads (depth ≤ 3), host handles, re-rooted values, module-level `ref`/`lazy` cells and
+//!   stores of fresh values into them. At every `collect(t)` the heap is snapshotted through the
+//!   cfg(gluon_verif) hooks before and after; the snapshot goes to the Lean model whose
+//!   `collect` must free exactly the same objects; independently the oracle checks, on address
+//!   sets only, `Freed ∩ ReachableFromAnyRoot = ∅` and "what survives in a swept heap was
+//!   reachable".
+//! * **transparency** (oracle): generated programs (the shared `gv::surf` stream, allocation-heavy
+//!   programs, programs that store fresh values into module-level cells) are run with the
+//!   collector forced at every k-th allocation check for several k; canonical outcomes must not
+//!   depend on k, and a second run of the same program must not retain more memory than the first.
 #[path = "c05/heapsnap.rs"]
 mod heapsnap;
+#[path = "c05/shapes.rs"]
+mod shapes;
+
 use gluon::vm::api::{Hole, OpaqueValue};
+use gluon::vm::gc::verif::{COLLECTIONS, STRESS_INTERVAL};
 use gluon::{RootedThread, ThreadExt};
+use gv::rng::Rng;
+use gv::surf;
+use gv::{Args, Out};
 use heapsnap::*;
+use serde_json::{json, Value as J};
+use std::collections::BTreeSet;
+use std::sync::atomic::Ordering;
+use std::time::Duration;
 
 type Any = OpaqueValue<RootedThread, Hole>;
 
-fn dump(tag: &str, s: &Snap) {
-    let idx = s.index();
-    println!("== {} : {} objs, global {}, problems {:?}", tag, s.order.len(), s.global_count, s.problems);
-    for a in &s.order {
-        let o = &s.objs[a];
-        println!(
-            "  #{} owner={:?} home={:?} size={} reached={} thr={} edges={:?}",
-            idx[a], o.owner, o.home, o.size, o.reached, o.is_thread,
-            o.edges.iter().map(|e| idx[e]).collect::<Vec<_>>()
-        );
-    }
-    println!("  bad edges: {:?}", s.bad_edges().iter().map(|(a, b)| (idx[a], idx[b])).collect::<Vec<_>>());
+// ------------------------------------------------------------------------------------------
+// graph stream
+// ------------------------------------------------------------------------------------------
+
+struct Sc {
+    vm: RootedThread,
+    threads: Vec<(Path, RootedThread)>,
+    handles: Vec<(usize, Any, &'static str)>,
+    cells: Vec<(String, &'static str)>,
+    n: usize,
 }
 
-fn probe(mode: &str) {
+fn relation(o_owner: &[usize], p_owner: &[usize]) -> &'static str {
+    if o_owner.is_empty() {
+        "global-cell-holds-thread-heap-value"
+    } else if is_prefix(o_owner, p_owner) {
+        "ancestor-heap-holds-descendant-heap-value"
+    } else {
+        "unrelated-heaps"
+    }
+}
+
+fn collect_request(s: &Snap, t: &[usize]) -> String {
+    let idx = s.index();
+    let mut out = format!("collect {} (objs", path_sexp(t));
+    for a in &s.order {
+        let o = &s.objs[a];
+        let es: Vec<String> = o.edges.iter().map(|e| idx[e].to_string()).collect();
+        let ow = o.owner.clone().unwrap_or(vec![99]);
+        let hm = o.home.clone().unwrap_or(vec![99]);
+        out.push_str(&format!(
+            " ({} {} {} ({}))",
+            path_sexp(&ow),
+            path_sexp(&hm),
+            if o.is_thread { "t" } else { "p" },
+            es.join(" ")
+        ));
+    }
+    out.push_str("))");
+    out
+}
+
+/// One scenario; returns JSON `{cases: [[request, impl]], oracle: [[fp, what]], counts: {..}}`.
+fn graph_scenario(input: &str) -> String {
+    let inp: J = serde_json::from_str(input).unwrap();
+    let seed = inp["seed"].as_u64().unwrap();
+    let mut steps = inp["steps"].as_u64().unwrap() as usize;
+    let mut seen_bad: BTreeSet<usize> = BTreeSet::new();
+    let only: Option<Vec<String>> = inp.get("ops").and_then(|o| o.as_array()).map(|a| a.iter().map(|x| x.as_str().unwrap().to_string()).collect());
+    let mut rng = Rng::new(seed, 0xC05);
     let vm = gv::vm::new_vm();
     gv::vm::settings(&vm, false, false);
     vm.get_database_mut().set_run_io(true);
-    match mode {
-        "basic" => {
-            let s = snapshot(&vm);
-            dump("fresh", &s);
-            let c = vm.new_thread().unwrap();
-            let v: Any = c.run_expr::<Any>("a", "let x = { a = [1,2,3], b = \"abc\" } in { x, y = x }").unwrap().0;
-            let s = snapshot(&vm);
-            dump("after eval in child", &s);
-            let w = v.clone().into_inner().re_root(vm.clone()).unwrap();
-            let s = snapshot(&vm);
-            dump("after reroot", &s);
-            drop(v);
-            c.collect();
-            let s = snapshot(&vm);
-            dump("after drop+collect child", &s);
-            drop(w);
-            vm.collect();
-            let s = snapshot(&vm);
-            dump("after drop+collect root", &s);
+    // load what the shapes import once, so that scenarios mostly measure their own values
+    let _ = vm.run_expr::<Any>("warm", &format!("{}0", shapes::PRE));
+    let mut sc = Sc { vm: vm.clone(), threads: vec![(vec![0], vm.clone())], handles: vec![], cells: vec![], n: 0 };
+    let mut cases: Vec<J> = vec![];
+    let mut oracle: Vec<J> = vec![];
+    let mut counts: std::collections::BTreeMap<String, u64> = Default::default();
+    let mut log: Vec<String> = vec![];
+    let mut bump = |k: &str, counts: &mut std::collections::BTreeMap<String, u64>| *counts.entry(k.to_string()).or_insert(0) += 1;
+    let mut step = 0;
+    // when an operation leaves a pointer that crosses heaps the wrong way, the very next step is a
+    // collection of the heap that owns the pointee: the schedule "a collection lands between the
+    // store and the next use"
+    let mut forced: Option<usize> = None;
+    let mut scripted = only.clone().unwrap_or_default().into_iter();
+    'outer: while step < steps {
+        step += 1;
+        sc.n += 1;
+        let op: String = if forced.is_some() {
+            "collect".to_string()
+        } else if only.is_some() {
+            match scripted.next() {
+                Some(o) => o,
+                None => break,
+            }
+        } else {
+            let w = rng.below(100);
+            (if w < 10 {
+                "newthread"
+            } else if w < 35 {
+                "eval"
+            } else if w < 45 {
+                "drop"
+            } else if w < 58 {
+                "reroot"
+            } else if w < 62 {
+                "loadcell"
+            } else if w < 74 {
+                "storecell"
+            } else {
+                "collect"
+            })
+            .to_string()
+        };
+        if std::env::var("C05_DEBUG").is_ok() {
+            eprintln!("op {} (log so far: {:?})", op, log.last());
         }
-        "strarr" => {
-            let c = vm.new_thread().unwrap();
-            let v: Any = c
-                .run_expr::<Any>("a", "let s = import! std.string in [s.append \"hello \" \"world\", s.append \"foo\" \"bar\"]")
-                .unwrap()
-                .0;
-            let w = v.clone().into_inner().re_root(vm.clone()).unwrap();
-            let s = snapshot(&vm);
-            dump("after reroot", &s);
-            drop(v);
-            c.collect();
-            let _ = c.run_expr::<Any>("junk", "let s = import! std.string in [s.append \"XXXXXX\" \"YYYYY\", s.append \"ZZZ\" \"WWW\"]");
-            println!("value now: {:?}", w);
+        // scripted form `name:arg:arg` (corpus scenarios): explicit thread / family / handle
+        let parts: Vec<String> = op.split(':').map(|x| x.to_string()).collect();
+        let op = parts[0].clone();
+        let arg_n = |i: usize| -> Option<usize> { parts.get(i).and_then(|x| x.parse().ok()) };
+        let arg_s = |i: usize| -> Option<&'static str> { parts.get(i).and_then(|x| shapes::FAMILIES.iter().find(|f| **f == x.as_str()).cloned()) };
+        match op.as_str() {
+            "newthread" => {
+                if sc.threads.len() >= 6 {
+                    continue;
+                }
+                let cands: Vec<usize> = (0..sc.threads.len()).filter(|i| sc.threads[*i].0.len() < 3).collect();
+                let p = arg_n(1).unwrap_or_else(|| *rng.pick(&cands));
+                let nchild = sc.threads.iter().filter(|t| t.0.len() == sc.threads[p].0.len() + 1 && is_prefix(&sc.threads[p].0, &t.0)).count();
+                let t = sc.threads[p].1.new_thread().unwrap();
+                let mut path = sc.threads[p].0.clone();
+                path.push(nchild);
+                log.push(format!("newthread {:?}", path));
+                sc.threads.push((path, t));
+                bump("op:newthread", &mut counts);
+            }
+            "eval" => {
+                let t = arg_n(2).unwrap_or_else(|| rng.below(sc.threads.len() as u64) as usize);
+                let sh = match arg_s(1) {
+                    Some(f) => shapes::shape_of(f, &mut rng),
+                    None => shapes::gen_shape(&mut rng),
+                };
+                let r = sc.threads[t].1.run_expr::<Any>(&format!("e{}", sc.n), &shapes::program(&sh));
+                log.push(format!("eval {:?} {}", sc.threads[t].0, sh.family));
+                match r {
+                    Ok((v, _)) => {
+                        sc.handles.push((t, v, sh.family));
+                        bump(&format!("eval:{}", sh.family), &mut counts);
+                    }
+                    Err(e) => {
+                        bump(&format!("eval-error:{}", sh.family), &mut counts);
+                        if std::env::var("C05_DEBUG").is_ok() {
+                            eprintln!("eval error {}: {}", sh.family, e);
+                        }
+                    }
+                }
+            }
+            "drop" => {
+                if sc.handles.is_empty() {
+                    continue;
+                }
+                let i = arg_n(1).unwrap_or_else(|| rng.below(sc.handles.len() as u64) as usize);
+                sc.handles.swap_remove(i);
+                seen_bad.clear();
+                log.push("drop".to_string());
+                bump("op:drop", &mut counts);
+            }
+            "reroot" => {
+                if sc.handles.is_empty() {
+                    continue;
+                }
+                let i = arg_n(1).unwrap_or_else(|| rng.below(sc.handles.len() as u64) as usize);
+                let t = arg_n(2).unwrap_or_else(|| rng.below(sc.threads.len() as u64) as usize);
+                let fam = sc.handles[i].2;
+                let from = sc.threads[sc.handles[i].0].0.clone();
+                log.push(format!("reroot {} {:?} -> {:?}", fam, from, sc.threads[t].0));
+                match sc.handles[i].1.clone().into_inner().re_root(sc.threads[t].1.clone()) {
+                    Ok(w) => {
+                        sc.handles.push((t, Any::from_value(w), fam));
+                        bump("op:reroot", &mut counts);
+                    }
+                    Err(_) => bump("op:reroot-refused", &mut counts),
+                }
+            }
+            "loadcell" => {
+                let t = rng.below(sc.threads.len() as u64) as usize;
+                let kind = if rng.chance(1, 2) { "ref" } else { "lazy" };
+                let name = format!("cellmod{}", sc.n);
+                let src = if kind == "ref" {
+                    "let st = import! std.st.reference.prim\n{ r = st.ref { a = [0], b = \"\" } }".to_string()
+                } else {
+                    format!("{}let l = lazy (\\u -> {{ a = [{}, 2, 3], b = string.append \"p\" \"q\" }})\n{{ l }}", shapes::PRE, sc.n)
+                };
+                log.push(format!("loadcell {} on {:?}", kind, sc.threads[t].0));
+                if sc.threads[t].1.load_script(&name, &src).is_ok() {
+                    // host handle to the module value: makes the global cell visible to the walk
+                    if let Ok((v, _)) = sc.threads[t].1.run_expr::<Any>(&format!("h{}", sc.n), &format!("import! {}", name)) {
+                        sc.handles.push((t, v, "module-cell"));
+                    }
+                    sc.cells.push((name, kind));
+                    bump(&format!("op:loadcell-{}", kind), &mut counts);
+                } else {
+                    bump("op:loadcell-error", &mut counts);
+                }
+            }
+            "storecell" => {
+                if sc.cells.is_empty() {
+                    continue;
+                }
+                let t = rng.below(sc.threads.len() as u64) as usize;
+                let c = rng.below(sc.cells.len() as u64) as usize;
+                let (name, kind) = sc.cells[c].clone();
+                let src = if kind == "ref" {
+                    format!(
+                        "{}let st = import! std.st.reference.prim\nlet m = import! {}\nlet u = st.(<-) m.r {{ a = [{}, 7], b = string.append \"k\" \"v\" }}\n(st.load m.r).a",
+                        shapes::PRE,
+                        name,
+                        sc.n
+                    )
+                } else {
+                    format!("{}let {{ force }} = import! std.lazy\nlet m = import! {}\n(force m.l).a", shapes::PRE, name)
+                };
+                log.push(format!("storecell {} from {:?}", kind, sc.threads[t].0));
+                match sc.threads[t].1.run_expr::<Any>(&format!("st{}", sc.n), &src) {
+                    Ok(_) => bump(&format!("op:storecell-{}", kind), &mut counts),
+                    Err(e) => {
+                        bump("op:storecell-error", &mut counts);
+                        if std::env::var("C05_DEBUG").is_ok() {
+                            eprintln!("store error: {}", e);
+                        }
+                    }
+                }
+            }
+            "collect" => {
+                let was_forced = forced.is_some();
+                let t = match forced.take() {
+                    Some(t) => t,
+                    None => arg_n(1).unwrap_or_else(|| rng.below(sc.threads.len() as u64) as usize),
+                };
+                if was_forced {
+                    bump("op:collect-forced-after-cross-heap-pointer", &mut counts);
+                }
+                let path = sc.threads[t].0.clone();
+                let before = snapshot(&sc.vm);
+                for p in &before.problems {
+                    bump(&format!("snapshot-problem:{}", p), &mut counts);
+                }
+                if before.problems.iter().any(|p| p.starts_with("trace-shape")) {
+                    // the walk itself is not trustworthy here: never compared
+                    bump("skipped:trace-shape", &mut counts);
+                    continue;
+                }
+                let req = collect_request(&before, &path);
+                let col0 = COLLECTIONS.load(Ordering::Relaxed);
+                sc.threads[t].1.collect();
+                let ncol = COLLECTIONS.load(Ordering::Relaxed) - col0;
+                let after_lists: BTreeSet<usize> = {
+                    let mut s = BTreeSet::new();
+                    for (_, th) in &sc.threads {
+                        for (a, _, _) in th.verif_heap().1 {
+                            s.insert(a);
+                        }
+                    }
+                    s
+                };
+                let idx = before.index();
+                let mut freed: Vec<usize> = before.thread_heap_objects().into_iter().filter(|a| !after_lists.contains(a)).collect();
+                freed.sort_by_key(|a| idx[a]);
+                let payload = format!("(freed{})", freed.iter().map(|a| format!(" {}", idx[a])).collect::<String>());
+                log.push(format!("collect {:?} freed {}", path, freed.len()));
+                bump("op:collect", &mut counts);
+                bump(&format!("collect-at-depth:{}", path.len()), &mut counts);
+                if ncol != 1 {
+                    bump("collect-count-not-1", &mut counts);
+                }
+                let nthreads = sc.threads.len();
+                let bad = before.bad_edges();
+                let shape_key = format!(
+                    "thr{}|d{}|objs{}|freed{}|bad{}|cells{}",
+                    nthreads,
+                    path.len(),
+                    before.order.len() / 20,
+                    (freed.len() + 9) / 10,
+                    bad.len().min(2),
+                    sc.cells.len().min(3)
+                );
+                // ---- oracle (addresses only) ----
+                let reach = before.reached();
+                let mut stop = false;
+                let lost: Vec<usize> = freed.iter().cloned().filter(|a| reach.contains(a)).collect();
+                if !lost.is_empty() {
+                    // name the pointer that crosses heaps the wrong way, if there is one
+                    let rel = match bad.first() {
+                        Some((o, p)) => relation(before.objs[o].owner.as_deref().unwrap_or(&[]), before.objs[p].owner.as_deref().unwrap_or(&[])),
+                        None => "no-cross-heap-pointer",
+                    };
+                    oracle.push(json!([
+                        format!("freed-reachable:{}", rel),
+                        format!("collect({:?}) freed {} object(s) still reachable from a root (first: #{} owned by {:?}); op log: {}", path, lost.len(), idx[&lost[0]], before.objs[&lost[0]].owner, log.join("; ")),
+                    ]));
+                    stop = true;
+                }
+                let swept_survivors: Vec<usize> = before
+                    .thread_heap_objects()
+                    .into_iter()
+                    .filter(|a| after_lists.contains(a) && is_prefix(&path, before.objs[a].owner.as_deref().unwrap_or(&[99])) && !reach.contains(a))
+                    .collect();
+                if !swept_survivors.is_empty() {
+                    oracle.push(json!([
+                        "unreachable-survives-collection",
+                        format!("collect({:?}) kept {} object(s) of a swept heap that no root reaches; op log: {}", path, swept_survivors.len(), log.join("; ")),
+                    ]));
+                }
+                for a in &freed {
+                    if !is_prefix(&path, before.objs[a].owner.as_deref().unwrap_or(&[99])) {
+                        oracle.push(json!(["freed-outside-collected-heaps", format!("collect({:?}) freed an object of heap {:?}", path, before.objs[a].owner)]));
+                        break;
+                    }
+                }
+                if before.problems.iter().any(|p| p == "stale-mark-bit") {
+                    // an earlier collection of a same-generation heap followed a cross-heap pointer and
+                    // left mark bits behind (gc.rs:1398 marks any object that is not OLDER); the model
+                    // has no mark bits: outside its fragment, oracle only
+                    bump("skipped:stale-mark-bit", &mut counts);
+                } else {
+                    cases.push(json!([req, payload, shape_key]));
+                }
+                if stop {
+                    // memory is corrupt from here on
+                    break 'outer;
+                }
+            }
+            _ => {}
         }
-        "sharedref" => {
-            let c = vm.new_thread().unwrap();
-            let v: Any = c
-                .run_expr::<Any>("a", "let { ref } = import! std.reference\nlet { ? } = import! std.io\nlet { flat_map, wrap } = import! std.prim\n ref 1")
-                .map(|x| x.0)
-                .unwrap_or_else(|e| panic!("{}", e));
-            println!("{:?}", v);
+        if op != "collect" {
+            let snap = snapshot(&sc.vm);
+            let bad = snap.bad_edges();
+            if let Some((o, p)) = bad.first() {
+                bump("cross-heap-pointer-seen", &mut counts);
+                // marker for the parent: if the process dies from here on, it died while this
+                // pointer existed
+                println!("BAD {}", relation(snap.objs[o].owner.as_deref().unwrap_or(&[]), snap.objs[p].owner.as_deref().unwrap_or(&[])));
+                use std::io::Write;
+                let _ = std::io::stdout().flush();
+            }
+            for (_, p) in &bad {
+                if seen_bad.contains(p) {
+                    continue;
+                }
+                if let Some(ow) = snap.objs[p].owner.clone() {
+                    if let Some(ti) = sc.threads.iter().position(|t| t.0 == ow) {
+                        seen_bad.insert(*p);
+                        forced = Some(ti);
+                        steps += 1;
+                        break;
+                    }
+                }
+            }
         }
-        "sharedref2" => {
-            gv::vm::settings(&vm, true, false);
-            let c = vm.new_thread().unwrap();
-            let v: Any = c
-                .run_expr::<Any>("a", "let { ref } = import! std.reference\nlet { ? } = import! std.io\nlet { wrap } = import! std.applicative\ndo r = ref 1\nwrap { a = r, b = r }")
-                .map(|x| x.0)
-                .unwrap_or_else(|e| panic!("{}", e));
-            let w: Any = Any::from_value(v.clone().into_inner().re_root(vm.clone()).unwrap());
-            let mut f: gluon::vm::api::FunctionRef<fn(Any) -> gluon::vm::api::IO<i64>> = vm
-                .run_expr("f", "let { Reference, ref, load, (<-) } = import! std.reference\nlet { ? } = import! std.io\nlet { wrap } = import! std.applicative\nlet f x : { a : _, b : Reference Int } -> _ =\n    seq x.a <- 7\n    load x.b\nf")
-                .map(|x| x.0)
-                .unwrap_or_else(|e| panic!("{}", e));
-            println!("original in child: write a, read b = {:?}", c.run_expr::<i64>("zz", "1").is_ok());
-            println!("copy in root: write a:=7, read b => {:?}", f.call(w));
-            let mut g: gluon::vm::api::FunctionRef<fn(Any) -> gluon::vm::api::IO<i64>> = c
-                .run_expr("f", "let { Reference, ref, load, (<-) } = import! std.reference\nlet { ? } = import! std.io\nlet { wrap } = import! std.applicative\nlet f x : { a : _, b : Reference Int } -> _ =\n    seq x.a <- 7\n    load x.b\nf")
-                .map(|x| x.0)
-                .unwrap_or_else(|e| panic!("{}", e));
-            println!("original in child: write a:=7, read b => {:?}", g.call(v));
+    }
+    // leave without running destructors over a possibly corrupt heap
+    let out = json!({"cases": cases, "oracle": oracle, "counts": counts, "log": log}).to_string();
+    std::mem::forget(sc);
+    out
+}
+
+// ------------------------------------------------------------------------------------------
+// transparency stream
+// ------------------------------------------------------------------------------------------
+
+/// Child: one VM, collector forced at every k-th check; per program `{mods, main}` answer
+/// `outcome \t m0 \t m1 \t m2` (memory after a collect before / after run 1 / after run 2).
+fn trans_child(k: usize) {
+    let vm = gv::vm::new_vm();
+    gv::vm::settings(&vm, false, false);
+    vm.get_database_mut().set_run_io(true);
+    let mut i = 0;
+    gv::child::serve(|input| {
+        i += 1;
+        let p: J = serde_json::from_str(input).unwrap();
+        STRESS_INTERVAL.store(k, Ordering::Relaxed);
+        let mut load_err = None;
+        for m in p["mods"].as_array().unwrap() {
+            let name = m[0].as_str().unwrap();
+            if let Err(e) = vm.load_script(name, m[1].as_str().unwrap()) {
+                load_err = Some(surf::classify_error(&format!("{}", e)));
+            }
         }
-        _ => {}
+        let main = p["main"].as_str().unwrap();
+        STRESS_INTERVAL.store(0, Ordering::Relaxed);
+        vm.collect();
+        let m0 = vm.allocated_memory();
+        STRESS_INTERVAL.store(k, Ordering::Relaxed);
+        let r1 = match &load_err {
+            Some(e) => e.clone(),
+            None => surf::run_canon(&vm, &format!("t{}a", i), main),
+        };
+        STRESS_INTERVAL.store(0, Ordering::Relaxed);
+        vm.collect();
+        let m1 = vm.allocated_memory();
+        STRESS_INTERVAL.store(k, Ordering::Relaxed);
+        let r2 = if load_err.is_none() && p["twice"].as_bool().unwrap_or(false) {
+            surf::run_canon(&vm, &format!("t{}b", i), main)
+        } else {
+            r1.clone()
+        };
+        STRESS_INTERVAL.store(0, Ordering::Relaxed);
+        vm.collect();
+        let m2 = vm.allocated_memory();
+        format!("{}\t{}\t{}\t{}\t{}", r1, r2, m0, m1, m2)
+    });
+}
+
+struct Prog {
+    family: String,
+    job: J,
+}
+
+fn alloc_heavy(rng: &mut Rng, i: usize) -> Prog {
+    let n = rng.range(20, 120);
+    let fams = ["list-build-sum", "array-append-loop", "string-concat-loop", "closure-chain", "record-churn", "tree-build"];
+    let f = fams[i % fams.len()];
+    let main = match f {
+        "list-build-sum" => format!(
+            "type L = | Nil | Cons Int L\nrec let build n acc = if n #Int== 0 then acc else build (n #Int- 1) (Cons n acc)\nin\nrec let sum l acc = match l with\n    | Nil -> acc\n    | Cons x xs -> sum xs (acc #Int+ x)\nin\nsum (build {} Nil) 0",
+            n
+        ),
+        "array-append-loop" => format!(
+            "let array = import! std.array.prim\nrec let go n acc = if n #Int== 0 then acc else go (n #Int- 1) (array.append acc [n, n #Int* 2])\nin\ngo {} [0]",
+            n
+        ),
+        "string-concat-loop" => format!(
+            "let string = import! std.string.prim\nrec let go n acc = if n #Int== 0 then acc else go (n #Int- 1) (string.append acc \"ab\")\nin\n{{ s = go {} \"\" }}",
+            n
+        ),
+        "closure-chain" => format!(
+            "rec let mk n f = if n #Int== 0 then f else mk (n #Int- 1) (\\x -> f (x #Int+ n))\nin\n(mk {} (\\x -> x)) 1",
+            n
+        ),
+        "record-churn" => format!(
+            "rec let go n r = if n #Int== 0 then r else go (n #Int- 1) {{ a = r.b, b = [n, r.c], c = r.c #Int+ 1 }}\nin\ngo {} {{ a = [0], b = [1], c = 2 }}",
+            n
+        ),
+        _ => format!(
+            "type T = | Leaf | Node T Int T\nrec let build d = if d #Int== 0 then Leaf else Node (build (d #Int- 1)) d (build (d #Int- 1))\nin\nrec let size t = match t with\n    | Leaf -> 0\n    | Node l _ r -> size l #Int+ 1 #Int+ size r\nin\n{{ n = size (build {}), t = build 3 }}",
+            3 + n % 6
+        ),
+    };
+    Prog { family: format!("alloc:{}", f), job: json!({"mods": [], "main": main, "twice": true}) }
+}
+
+/// Programs that store a fresh (thread-heap) value into a cell owned by a loaded module and then
+/// allocate before using it again.
+fn module_cell(rng: &mut Rng, i: usize, uid: &str) -> Prog {
+    let n = rng.range(1, 500);
+    let churn = "let array = import! std.array.prim\nrec let go n acc = if n #Int== 0 then acc else go (n #Int- 1) (array.append acc [n, n])\nin\nlet junk = go 40 [0]\n";
+    if i % 2 == 0 {
+        let m = format!("lazymod_{}", uid);
+        Prog {
+            family: "module-cell:lazy".into(),
+            job: json!({
+                "mods": [[m, format!("let {{ lazy }} = import! std.lazy\nlet array = import! std.array.prim\nlet l = lazy (\\u -> array.append [{}, 50, 60] [70, 80, 90])\n{{ l }}", n)]],
+                "main": format!("let {{ force }} = import! std.lazy\nlet {{ l }} = import! {}\nlet a = force l\n{}let b = force l\n{{ a, b, n = array.len junk }}", m, churn),
+                "twice": true
+            }),
+        }
+    } else {
+        let m = format!("refmod_{}", uid);
+        Prog {
+            family: "module-cell:ref".into(),
+            job: json!({
+                "mods": [[m, "let st = import! std.st.reference.prim\n{ r = st.ref [0] }"]],
+                "main": format!("let st = import! std.st.reference.prim\nlet {{ r }} = import! {}\nlet array = import! std.array.prim\nrec let go n acc = if n #Int== 0 then acc else go (n #Int- 1) (array.append acc [n, n])\nin\nlet u = st.(<-) r (array.append [{}, 1] [2, 3])\nlet junk = go 40 [0]\n{{ v = st.load r, n = array.len junk }}", m, n),
+                "twice": true
+            }),
+        }
+    }
+}
+
+/// addresses and symbol uniquifiers inside panic messages are not part of an outcome
+fn norm_addr(s: &str) -> String {
+    if !s.starts_with("panic") {
+        return s.to_string();
+    }
+    let mut out = String::new();
+    let mut prev_digit = false;
+    for c in s.chars() {
+        if c.is_ascii_digit() || (prev_digit && c.is_ascii_hexdigit()) {
+            if !prev_digit {
+                out.push('#');
+            }
+            prev_digit = true;
+        } else {
+            prev_digit = false;
+            out.push(c);
+        }
+    }
+    out
+}
+
+fn transparency(args: &Args, out: &mut Out) {
+    let thorough = args.thorough();
+    let ks: Vec<usize> = if thorough { vec![0, 1, 2, 3, 5, 8] } else { vec![0, 1, 3] };
+    let n_surf = if thorough { 1200 } else { 110 };
+    let n_alloc = if thorough { 300 } else { 24 };
+    let n_cell = if thorough { 60 } else { 8 };
+    let mut rng = Rng::new(args.seed, 0x7A);
+    let mut progs: Vec<Prog> = vec![];
+    for i in 0..n_surf {
+        let mut g = surf::Gen::new(&mut rng);
+        let (e, _) = g.program(2 + (i % 4) as u32);
+        let cs = surf::constructs(&e);
+        let fam = format!("surf:{}", cs.iter().take(3).cloned().collect::<Vec<_>>().join("+"));
+        progs.push(Prog { family: fam, job: json!({"mods": [], "main": surf::program_text(&e), "twice": true}) });
+    }
+    for i in 0..n_alloc {
+        progs.push(alloc_heavy(&mut rng, i));
+    }
+    for i in 0..n_cell {
+        progs.push(module_cell(&mut rng, i, &format!("{}", i)));
+    }
+    let inputs: Vec<String> = progs.iter().map(|p| p.job.to_string()).collect();
+    let mut results: Vec<Vec<Result<String, String>>> = vec![];
+    for k in &ks {
+        let ka = k.to_string();
+        results.push(gv::child::batch(&["--child", "trans", &ka], &inputs, 60, Duration::from_secs(600)));
+    }
+    for (i, p) in progs.iter().enumerate() {
+        let fam_top = p.family.split(':').take(2).collect::<Vec<_>>().join(":");
+        let fam_fp = if p.family.starts_with("surf") { "surf".to_string() } else { fam_top.clone() };
+        let base = &results[0][i];
+        let parse = |r: &Result<String, String>| -> (String, String, i64, i64, i64) {
+            match r {
+                Ok(s) => {
+                    let f: Vec<&str> = s.split('\t').collect();
+                    if f.len() == 5 {
+                        (norm_addr(f[0]), norm_addr(f[1]), f[2].parse().unwrap_or(0), f[3].parse().unwrap_or(0), f[4].parse().unwrap_or(0))
+                    } else {
+                        (format!("malformed {}", s), String::new(), 0, 0, 0)
+                    }
+                }
+                Err(c) => (format!("crash {}", c), format!("crash {}", c), 0, 0, 0),
+            }
+        };
+        let (b1, _b2, _, _, _) = parse(base);
+        let oc = b1.split(' ').next().unwrap_or("").trim_matches(|c| c == '(' || c == ')').to_string();
+        out.count(&format!("trans-outcome:{}", oc));
+        out.count(&format!("trans-family:{}", fam_top));
+        if oc == "err:static" {
+            out.count("skipped:static-error");
+            continue;
+        }
+        // An internal failure of the pipeline on a program of the shared generator (D15, D16, … listed
+        // for C01/C02/C04) is an OUTCOME here: C05 only demands that it does not depend on k.
+        if (oc == "panic" || oc == "crash") && p.family.starts_with("surf") {
+            out.count("trans-internal-failure-without-gc-involvement");
+        }
+        let mut all_same = true;
+        for (ki, k) in ks.iter().enumerate() {
+            let (r1, r2, _m0, m1, m2) = parse(&results[ki][i]);
+            out.add("trans-evaluations", 1);
+            if r1 != b1 || r2 != b1 {
+                all_same = false;
+                let what = format!(
+                    "outcome depends on when collections run: family {} with no forced collection gives {}; with a collection at every {}-th allocation check run 1 gives {}, run 2 gives {}",
+                    p.family,
+                    b1.chars().take(120).collect::<String>(),
+                    k,
+                    r1.chars().take(120).collect::<String>(),
+                    r2.chars().take(120).collect::<String>()
+                );
+                out.oracle_fail(&format!("gc-changes-outcome:{}", fam_fp), &what, json!({"job": p.job, "k": k}));
+            } else if oc == "ok" && m2 > m1 {
+                out.oracle_fail(
+                    &format!("memory-grows-on-rerun:{}", fam_fp),
+                    &format!("family {} k={}: allocated_memory after collect is {} after the first run and {} after the second run of the same program", p.family, k, m1, m2),
+                    json!({"job": p.job, "k": k}),
+                );
+            }
+            if oc == "ok" {
+                out.count(&format!("trans-mem-delta-run2:{}", if m2 == m1 { "0" } else if m2 < m1 { "neg" } else { "pos" }));
+            }
+        }
+        out.class(format!("trans|{}|{}|{}", p.family, oc, all_same));
+        if i % 41 == 0 {
+            out.sample(json!({"stream": "transparency", "family": p.family, "main": p.job["main"], "outcome_all_k": b1.chars().take(100).collect::<String>()}));
+        }
+    }
+}
+
+fn graph(args: &Args, out: &mut Out) {
+    let n = if args.thorough() { 600 } else { 45 };
+    let steps = if args.thorough() { 40 } else { 30 };
+    let mut inputs = vec![];
+    // corpus first: the module-level lazy / ref histories (D1) and a plain one
+    let corpus: Vec<J> = vec![
+        json!({"seed": 1, "steps": 10, "ops": ["loadcell", "storecell", "collect"]}),
+        json!({"seed": 2, "steps": 10, "ops": ["loadcell", "storecell", "collect"]}),
+        json!({"seed": 3, "steps": 10, "ops": ["newthread", "eval", "eval", "collect", "drop", "collect"]}),
+        // an array of strings built in a child, re-rooted into the root thread, original dropped
+        json!({"seed": 4, "steps": 10, "ops": ["newthread:0", "eval:string-array:1", "reroot:0:0", "drop:0", "collect:1", "collect:0"]}),
+        json!({"seed": 5, "steps": 12, "ops": ["newthread:0", "newthread:1", "eval:shared:2", "reroot:0:1", "reroot:1:0", "drop:0", "collect:2", "drop:0", "collect:1", "collect:0"]}),
+    ];
+    for c in &corpus {
+        inputs.push(c.to_string());
+    }
+    for i in 0..n {
+        inputs.push(json!({"seed": args.seed * 100_000 + i as u64, "steps": steps}).to_string());
+    }
+    let results: Vec<Result<String, (String, String)>> = inputs
+        .iter()
+        .map(|inp| {
+            let payload = format!("{}\n", serde_json::to_string(inp).unwrap());
+            let exit = gv::child::run(&["--child", "graph"], payload.as_bytes(), Duration::from_secs(120));
+            let (o, class) = match &exit {
+                gv::child::Exit::Ok(o) => (o.clone(), None),
+                gv::child::Exit::Code(_, o, _) | gv::child::Exit::Signal(_, o, _) | gv::child::Exit::Timeout(o) => (o.clone(), Some(exit.class())),
+            };
+            match o.lines().find_map(|l| l.strip_prefix("R ")) {
+                Some(r) => Ok(serde_json::from_str::<String>(r).unwrap_or_default()),
+                None => Err((class.unwrap_or_else(|| "exit:incomplete".into()), o.lines().filter_map(|l| l.strip_prefix("BAD ")).last().unwrap_or("").to_string())),
+            }
+        })
+        .collect();
+    for (inp, r) in inputs.iter().zip(results.iter()) {
+        match r {
+            Err((class, bad)) if !bad.is_empty() => {
+                out.count(&format!("graph-crash-with-cross-heap-pointer:{}", class));
+                out.oracle_fail(
+                    &format!("crash-while-cross-heap-pointer-present:{}", bad),
+                    &format!("the VM died ({}) during a history of thread / handle / cell operations while a pointer into a non-ancestor heap existed ({}) and before the forced collection could be observed", class, bad),
+                    json!({"scenario": serde_json::from_str::<J>(inp).unwrap()}),
+                );
+            }
+            Err((class, _)) => {
+                out.oracle_fail(
+                    &format!("crash:graph-scenario:{}", class),
+                    &format!("the VM died ({}) during a history of thread / handle / cell operations; no cross-heap pointer had been seen", class),
+                    json!({"scenario": serde_json::from_str::<J>(inp).unwrap()}),
+                );
+            }
+            Ok(s) => {
+                let v: J = serde_json::from_str(s).unwrap();
+                for (k, c) in v["counts"].as_object().unwrap() {
+                    out.add(&format!("graph-{}", k), c.as_u64().unwrap());
+                }
+                for c in v["cases"].as_array().unwrap() {
+                    out.case(c[0].as_str().unwrap(), c[1].as_str().unwrap());
+                    out.class(format!("graph|{}", c[2].as_str().unwrap()));
+                }
+                for o in v["oracle"].as_array().unwrap() {
+                    out.oracle_fail(o[0].as_str().unwrap(), o[1].as_str().unwrap(), json!({"scenario": serde_json::from_str::<J>(inp).unwrap()}));
+                }
+                if out.samples.len() < 3 && !v["cases"].as_array().unwrap().is_empty() {
+                    out.sample(json!({"stream": "graph", "scenario": serde_json::from_str::<J>(inp).unwrap(), "log": v["log"]}));
+                }
+            }
+        }
     }
 }
 
 fn main() {
+    if std::env::var("C05_DEBUG").is_err() {
+        gv::quiet_panics();
+    }
     let a: Vec<String> = std::env::args().collect();
-    if a.get(1).map(|s| s.as_str()) == Some("--probe") {
-        probe(&a[2]);
+    if a.get(1).map(|s| s.as_str()) == Some("--child") {
+        match a[2].as_str() {
+            "graph" => gv::child::serve(graph_scenario),
+            "trans" => trans_child(a[3].parse().unwrap()),
+            _ => {}
+        }
         return;
     }
+    let args = Args::parse();
+    let mut out = Out::new(&args.out);
+    if let Some(rp) = &args.replay {
+        let v: J = serde_json::from_str(&std::fs::read_to_string(rp).unwrap()).unwrap();
+        let case = &v["case"];
+        if let Some(sc) = case.get("scenario") {
+            let r = gv::child::batch(&["--child", "graph"], &[sc.to_string()], 1, Duration::from_secs(120));
+            println!("scenario {} =>\n{:?}", sc, r[0]);
+        } else if let Some(job) = case.get("job") {
+            for k in [0u64, case["k"].as_u64().unwrap_or(1)] {
+                let ka = k.to_string();
+                let r = gv::child::batch(&["--child", "trans", &ka], &[job.to_string()], 1, Duration::from_secs(120));
+                println!("k={} => {:?}", k, r[0]);
+            }
+        }
+        out.finish();
+        return;
+    }
+    graph(&args, &mut out);
+    transparency(&args, &mut out);
+    out.finish();
 }
